@@ -85,7 +85,7 @@ def ensure_mir(which=('pp', 'sv-parser', 'sv-parser-syntaxtree', 'sv-parser-pars
             state = {}
         for name in which:
             cdir, deps = CRATES[name]
-            h = crate_hash(SNAP, deps)
+            h = crate_hash(SNAP, deps) + ('+hooks' if name == 'sv-parser' else '')
             path = os.path.join(MIRDIR, name + '.mir')
             regen = not (state.get(name) == h and os.path.exists(path) and os.path.getsize(path) > 0)
             if regen:
@@ -96,8 +96,11 @@ def ensure_mir(which=('pp', 'sv-parser', 'sv-parser-syntaxtree', 'sv-parser-pars
                 e = env()
                 e['CARGO_TARGET_DIR'] = MIR_TARGET
                 with open(path + '.tmp', 'wb') as fh:
+                    # the sv-parser crate is dumped with its hooks on (instantiations of the exported macros); the flag after
+                    # `--` reaches the final crate only, its dependencies are compiled as usual
+                    extra = ['--cfg', 'sv_parser_verif'] if name == 'sv-parser' else []
                     p = subprocess.run(['cargo', '+nightly', 'rustc', '--offline', '--lib', '--', '-Zunpretty=mir',
-                                        '-C', 'debug-assertions=off', '-C', 'overflow-checks=on'],
+                                        '-C', 'debug-assertions=off', '-C', 'overflow-checks=on'] + extra,
                                        cwd=os.path.join(SNAP, cdir), stdout=fh, stderr=subprocess.PIPE, env=e)
                 if p.returncode != 0 or os.path.getsize(path + '.tmp') == 0:
                     sys.stderr.write(p.stderr.decode()[-3000:])
